@@ -1323,7 +1323,12 @@ pub fn c10(rec: &mut Rec, rng: &mut Rng, thorough: bool) {
             // fill towards 9..13 simultaneous clients
             let target = rng.range(9, 13);
             while sim.w.clients.iter().filter(|c| c.sock.is_some()).count() < target {
-                sim.connect(rec);
+                let j = sim.connect(rec);
+                // an eager client: its first request is already in the socket when the server gets to it — also when
+                // the server is full and turns it away
+                if rng.chance(1, 2) {
+                    sim.send_next(rec, rng, j);
+                }
                 if rng.chance(2, 3) {
                     sim.poll(rec);
                 }
@@ -1405,6 +1410,10 @@ pub fn c10(rec: &mut Rec, rng: &mut Rng, thorough: bool) {
             for i in 0..sim.w.clients.len() {
                 if sim.w.clients[i].sock.is_some() && sim.w.clients[i].refused {
                     sim.w.client_read(rec, i);
+                    // "… receives the fixed 503 message and is disconnected"
+                    if !sim.w.clients[i].saw_eof {
+                        rec.oracle_fail("C10", &format!("refused client {} was not disconnected (no end of stream after the 503 message)", i), &sim.w.log);
+                    }
                     sim.w.clients[i].sock = None;
                     sim.w.clients[i].closed = true;
                 }
@@ -1880,6 +1889,44 @@ pub fn srv_conn(rec: &mut Rec, rng: &mut Rng, thorough: bool) {
         let mine: Vec<String> = sim.w.yielded.iter().filter(|(_, t)| t.starts_with(&format!("/c{}/", f))).map(|(_, t)| t.clone()).collect();
         if mine != vec![format!("/c{}/later", f)] {
             rec.oracle_fail("C11", &format!("after a 400 that covered a valid and a malformed request, a later request was sent: yielded {:?}", mine), &sim.w.log);
+        }
+        // C11 with a request in flight across the 400: R0 yielded and not yet answered, a malformed request (400), a
+        // later well-formed request B; the application answers B FIRST, then R0 — the client receives the 400 and both
+        // answers (the rejected request takes nothing away from the requests around it)
+        {
+            let g = sim.connect(rec);
+            sim.poll(rec);
+            sim.w.send(rec, g, format!("GET /c{}/r0 HTTP/1.1\r\n\r\n", g).as_bytes());
+            for _ in 0..2 {
+                sim.poll(rec);
+            }
+            sim.w.send(rec, g, b"BOGUS /x HTTP/1.1\r\n\r\n");
+            sim.plans[g].sent_garbage = true;
+            for _ in 0..2 {
+                sim.poll(rec);
+            }
+            sim.w.send(rec, g, format!("GET /c{}/r1 HTTP/1.1\r\n\r\n", g).as_bytes());
+            for _ in 0..2 {
+                sim.poll(rec);
+            }
+            for want in [format!("/c{}/r1", g), format!("/c{}/r0", g)] {
+                if let Some(k) = sim.w.held.iter().position(|h| h.tag == want) {
+                    sim.respond(rec, rng, k);
+                    sim.poll(rec);
+                } else {
+                    rec.oracle_fail("C11", &format!("{} was not yielded (a request in flight, a rejected one, a later one)", want), &sim.w.log);
+                }
+            }
+            for _ in 0..3 {
+                sim.poll(rec);
+            }
+            sim.w.client_read(rec, g);
+            let (resps, _) = split_responses(&sim.w.clients[g].received);
+            let codes: Vec<u16> = resps.iter().map(|r| r.0).collect();
+            let bodies: Vec<String> = resps.iter().filter(|r| r.0 == 200).map(|r| String::from_utf8_lossy(&r.1).split(':').next().unwrap_or("").to_string()).collect();
+            if codes != vec![400, 200, 200] || bodies != vec![format!("/c{}/r1", g), format!("/c{}/r0", g)] {
+                rec.oracle_fail("C11", &format!("a request in flight across a 400, answers supplied later-first: the client received statuses {:?} with answers {:?}", codes, bodies), &sim.w.log);
+            }
         }
         // C13 after descriptor reuse: a client gets an answer queued (the server now waits to WRITE to it) and goes
         // away before the poll; the next client inherits its descriptor number, asks with Expect and withholds the body
